@@ -448,7 +448,7 @@ def SchemaWorldFacts (decl doc : Json) : Prop :=
     ∀ mc ∈ l, SchemaCoordinatesMinItems1 mc.2 ∧ SchemaAreaRidges mc.2
 
 theorem parseWorld_post (decl : Json) (version : String) (doc : Json) (cull : Bool) :
-    PostI (parseWorld (R := R) decl version doc cull) (fun p => SchemaWorldFacts decl doc → p.world.WellFormed) := by
+    PostI (parseWorld (R := R) decl version doc cull) (fun p => SchemaWorldFacts decl doc → p.world.TempsWellFormed → p.world.WellFormed) := by
   unfold parseWorld
   refine PostI.bind (PostI.pmLift (P := fun props => schemaAt decl ["properties"] = .ok props) (fun _ h => h)) (fun props hprops => ?_)
   extract_lets c jp
@@ -467,13 +467,13 @@ theorem parseWorld_post (decl : Json) (version : String) (doc : Json) (cull : Bo
   refine PostI.bind (PostI.triv_lift _) (fun x6 _ => ?_)
   refine PostI.bind (PostI.triv_lift _) (fun seed _ => ?_)
   refine PostI.bind (PostI.pmLift (P := fun l => (⟨doc, props⟩ : Cur).pluginList "features" = .ok l) (fun _ h => h)) (fun feats hfeats => ?_)
-  refine PostI.bind (P := fun acc => SchemaWorldFacts decl doc → ∀ f ∈ acc.1, f.WellFormed) ?_ (fun acc hacc => ?_)
+  refine PostI.bind (P := fun acc => SchemaWorldFacts decl doc → ∀ f ∈ acc.1, f.TempsWellFormed → f.WellFormed) ?_ (fun acc hacc => ?_)
   · refine PostI.foldlM _ _ _ ?_ _ (fun _ f hf => by cases hf)
     rintro ⟨fs, tags⟩ ⟨m, cc⟩ hmem hfs
     have hfacts : SchemaWorldFacts decl doc → SchemaCoordinatesMinItems1 cc ∧ SchemaAreaRidges cc :=
       fun h => h props feats hprops hfeats _ hmem
-    have hstep : ∀ (f : Feature R) (tg : List String), (SchemaWorldFacts decl doc → f.WellFormed) →
-        (SchemaWorldFacts decl doc → ∀ f' ∈ (fs ++ [f], tg).1, f'.WellFormed) := by
+    have hstep : ∀ (f : Feature R) (tg : List String), (SchemaWorldFacts decl doc → f.TempsWellFormed → f.WellFormed) →
+        (SchemaWorldFacts decl doc → ∀ f' ∈ (fs ++ [f], tg).1, f'.TempsWellFormed → f'.WellFormed) := by
       intro f tg hf hs f' hf'
       rcases List.mem_append.1 hf' with h | h
       · exact hfs hs f' h
@@ -482,16 +482,16 @@ theorem parseWorld_post (decl : Json) (version : String) (doc : Json) (cull : Bo
     split
     · refine PostI.bind (parseArea_post _ 0 _ cc tags) (fun r hr => ?_)
       obtain ⟨f, tg⟩ := r
-      exact PostI.pure (hstep (.area f) tg (fun hs => hr (hfacts hs).2))
+      exact PostI.pure (hstep (.area f) tg (fun hs _ => hr (hfacts hs).2))
     · refine PostI.bind (parseArea_post _ 1 _ cc tags) (fun r hr => ?_)
       obtain ⟨f, tg⟩ := r
-      exact PostI.pure (hstep (.area f) tg (fun hs => hr (hfacts hs).2))
+      exact PostI.pure (hstep (.area f) tg (fun hs _ => hr (hfacts hs).2))
     · refine PostI.bind (parseArea_post _ 2 _ cc tags) (fun r hr => ?_)
       obtain ⟨f, tg⟩ := r
-      exact PostI.pure (hstep (.area f) tg (fun hs => hr (hfacts hs).2))
+      exact PostI.pure (hstep (.area f) tg (fun hs _ => hr (hfacts hs).2))
     · refine PostI.bind (parsePlume_postI _ cc tags) (fun r hr => ?_)
       obtain ⟨f, tg⟩ := r
-      exact PostI.pure (hstep (.plume f) tg (fun hs => hr.1 (hfacts hs).1))
+      exact PostI.pure (hstep (.plume f) tg (fun hs _ => hr.1 (hfacts hs).1))
     · refine PostI.bind (PostI.pmLift (parseLine_post _ false cc tags cull)) (fun r hr => ?_)
       obtain ⟨f, tg⟩ := r
       exact PostI.pure (hstep (.line f) tg (fun _ => hr))
@@ -500,6 +500,6 @@ theorem parseWorld_post (decl : Json) (version : String) (doc : Json) (cull : Bo
       exact PostI.pure (hstep (.line f) tg (fun _ => hr))
     · exact PostI.pmErr
   · obtain ⟨features, tags⟩ := acc
-    exact PostI.pure (fun hs f hf => hacc hs f hf)
+    exact PostI.pure (fun hs ht f hf => hacc hs f hf (ht f hf))
 
 end Gwb
